@@ -111,6 +111,53 @@ def cases(tier, rng, schema, feats):
             v = gen.show(val)
             for cap in range(1, 81):
                 add(variant, cap, "-", v)
+    # one LONG member, all others small: each variable-length byte string / text of each response in turn stretched to 60 / 100 / 200
+    # bytes (or its capacity), against every capacity of the menu from (message size - that length - 8) to (message size + 2) - the
+    # capacities at which the long member is the first thing that does not fit while everything after it would
+    def stretch(ty, v, idx, ctr, L):
+        k = ty[0]
+        if k in ("bytescap", "bytesref", "sliceref", "strcap", "strref") and v[0] in ("b", "s"):
+            me = ctr[0]
+            ctr[0] += 1
+            if me == idx:
+                n = min(L, ty[1]) if k in ("bytescap", "strcap") else L
+                return ("b", rng.bytes(n)) if v[0] == "b" else ("s", b"l" * n)
+            return v
+        if k == "vec" and v[0] == "L":
+            return ("L", [stretch(ty[1], x, idx, ctr, L) for x in v[1]])
+        if k == "opt":
+            return ("S", stretch(ty[1], v[1], idx, ctr, L)) if v[0] == "S" else v
+        if k == "named":
+            d = schema.get(ty[1])
+            if d and d["kind"] == "struct" and v[0] == "R":
+                tys = {f["label"]: f["ty"] for f in d["fields"]}
+                order = [f["label"] for f in d["fields"]]
+                vals = dict(v[1])
+                return ("R", [(l, stretch(tys[l], vals[l], idx, ctr, L)) for l in order if l in vals] + [(l, x) for l, x in v[1] if l not in tys])
+            if d and d["kind"] == "untagged" and v[0] == "V":
+                vt = dict(d["variants"]).get(v[1])
+                return ("V", v[1], stretch(vt, v[2], idx, ctr, L)) if vt else v
+        return v
+    menu = sorted(set(CAPS) | set(range(1, 81)))
+    probes = []
+    for variant, t in RESPONSES.items():
+        for j in range(2 if tier == "quick" else 8):
+            base = small(("named", t), g.named_val(t, present="all"), False)
+            ctr = [0]
+            stretch(("named", t), base, -1, ctr, 0)
+            for idx in range(ctr[0]):
+                for L in (60, 100, 200):
+                    probes.append((variant, gen.show(stretch(("named", t), base, idx, [0], L)), L))
+    # the size of each complete message, from the model (the largest capacity holds every one of them)
+    sizes = core.run_model([f"P{k}\tenc2\t{variant}\t7609\t-\t{v}" for k, (variant, v, L) in enumerate(probes)], feats)
+    for k, (variant, v, L) in enumerate(probes):
+        a = sizes.get(f"P{k}") or ""
+        if not a.startswith("buf 00"):
+            continue
+        size = len(a[4:]) // 2
+        for cap in menu:
+            if size - L - 8 <= cap <= size + 2:
+                add(variant, cap, "-", v)
     # the one nested structure with several members of very different sizes (packed attestation statement): every combination of a
     # short / medium signature with x5c absent, empty and holding one short certificate, against every capacity of the menu up to 129
     for variant, t in (("MakeCredential", RESPONSES["MakeCredential"]), ("GetAssertion", RESPONSES["GetAssertion"])):
